@@ -226,6 +226,29 @@ def _random(spec, ctx, R):
                           site="real_contract(expand*expand):library_product", detail={"class": cls})
             except Exception as e:
                 ctx.check("homomorphism", False, site="library_product", detail={"exception": repr(e)[:200]})
+        # the product homomorphism with the LIBRARY's product along every storage path (dense, sparse containers, operator forms, the component-
+        # form kernel with ndarray and scipy.sparse planes) on operands whose populated components form each of the 15 non-empty subsets of
+        # {w, i, j, k} (the other planes exactly zero / without stored entries): E(A) E(B) = E(product(A, B))
+        if rep < 2:
+            from . import c01 as _c01
+            sa = gen.AXES_SUBSETS[(spec["idx"] * 7 + rep * 5) % 15]
+            sb = gen.AXES_SUBSETS[(spec["idx"] * 11 + rep * 3 + 4) % 15]
+            Ap_, Bp_ = gen.entries(rng, "axes:" + sa, m, k), gen.entries(rng, "axes:" + sb, k, n)
+            ctx.distinct("axes", Ap_, Bp_)
+            want = U.real_expand(Ap_.copy()) @ U.real_expand(Bp_.copy())
+            sc_ = float((refq.absq(Ap_) @ refq.absq(Bp_)).max()) if Ap_.size and Bp_.size else 0.0
+            for path in _c01.PATHS:
+                if path == "dd_1d" and n != 1:
+                    continue
+                try:
+                    Cp = _c01.product(R, path, Ap_, Bp_)
+                    dev = float(np.abs(U.real_expand(Cp) - want).max())
+                except Exception as e:
+                    ctx.check("homomorphism", False, site="library_product:" + path, detail={"exception": repr(e)[:200], "axes": [sa, sb]})
+                    continue
+                ctx.check("homomorphism", dev, 64 * (4 * k + 2) * refq.EPS * sc_ + 1e-300, site="library_product:" + path,
+                          tags=["axes_left:" + sa], detail={"axes": [sa, sb], "shape": [m, k, n]})
+            ctx.hit("inputs:component_subsets")
         # real-linearity on dyadic data (exact)
         Ai = gen.entries(rng, "int", m, k)
         Bi = gen.entries(rng, "int", m, k)
